@@ -426,7 +426,17 @@ impl<'a> G<'a> {
         let m = self.m();
         let a = *self.rng.pick(ext);
         let b = *self.rng.pick(ext);
-        match self.rng.below(9) {
+        match self.rng.below(10) {
+            9 if !self.ref_funcs.is_empty() => {
+                // a temporary whose declaration was skipped, handed to a function by reference
+                // (read and assigned through the reference there)
+                let f = self.rng.pick(&self.ref_funcs).clone();
+                self.line(indent, &format!("{{ {a} == 77:"));
+                self.line(indent + 1, &format!("~ temp skipped_{m} = 5"));
+                self.line(indent, "}");
+                self.line(indent, &format!("~ {f}(skipped_{m})"));
+                self.line(indent, &format!("{m} after-ref {{skipped_{m}}}"));
+            }
             0 => self.line(indent, &format!("~ SEED_RANDOM({a})")),
             1 => self.line(indent, &format!("{m} rnd {{RANDOM({a}, {b})}}")),
             2 => {
